@@ -621,16 +621,15 @@ func (e *vfEnv) observe(conc **vfConc) vfObs {
 	}
 	defer sdb.Close()
 	var sweep []string
+	var ss Store
+	if vfSafely(func() error { var err error; ss, err = NewStore(sdb); return err }) != "ok" {
+		return o
+	}
 	for c, cl := range e.classes {
 		for g := 1; g <= 3; g++ {
 			sp := cl.spelling(g, e.rng)
 			sweep = append(sweep, sp)
-			// a fresh Store per query: nothing but the bytes on disk is shared
 			res := vfSafely(func() error {
-				ss, err := NewStore(sdb)
-				if err != nil {
-					return err
-				}
 				n, err := vfIPNetOf(sp)
 				if err != nil {
 					return err
